@@ -60,6 +60,8 @@ static bool classify_aead(const KV &c, std::vector<std::string> &tags) {
 }
 
 // ------------------------------------------------------------------ C01
+static Bytes g_warmup;
+static Bytes inc_session_encrypt(int alg, const Bytes &key, const Bytes &nonce, const Bytes &ad, const Bytes &pt, const std::vector<uint64_t> &chunks);
 static std::string cpp_encrypt(int family, int alg, const Bytes &key, const Bytes &nonce, const Bytes &ad, const Bytes &pt, Bytes &out) {
     std::unique_ptr<ascon::aead> o(lib::make_cpp(family, alg));
     Buf k(key), n(nonce), a(ad), m(pt), c(pt.size() + 16);
@@ -99,8 +101,13 @@ static std::string check_c01(const KV &c) {
     Bytes got = lib::enc_generic(lib::AEAD_ENC[alg], key, nonce, ad, pt, &clen);
     if (clen != pt.size() + 16) return "one-shot: reported clen " + num(clen) + " want " + num(pt.size() + 16);
     if (got != want) return "one-shot C encrypt differs from ASCON v1.2 reference: got " + hex(got).substr(0, 96) + " want " + hex(want).substr(0, 96);
+    if (lib::enc_generic_inplace(lib::AEAD_ENC[alg], key, nonce, ad, pt) != want) return "one-shot C encrypt IN PLACE (c == m) differs from reference";
     got = lib::inc_encrypt_alg(alg, key, nonce, ad, pt, chunks, tonum(c, "inplace") != 0);
     if (got != want) return "incremental encrypt (chunks " + tostr(c, "chunks") + ", inplace=" + tostr(c, "inplace") + ") differs from reference";
+    // ... and as the second packet of a session whose first packet (0..40 bytes) ran on the same state under nonce - 1
+    g_warmup.assign(pt.begin(), pt.begin() + std::min<size_t>(pt.size(), tonum(c, "tapeseed") % 41));
+    got = inc_session_encrypt(alg, key, nonce, ad, pt, chunks);
+    if (got != want) return "incremental encrypt as 2nd packet of a session (first packet " + num(g_warmup.size()) + " bytes, chunks " + tostr(c, "chunks") + ") differs from reference";
     set_tape((int)tonum(c, "tape"), tonum(c, "tapeseed"));
     clen = 0;
     got = lib::masked_encrypt(alg, key, nonce, ad, pt, &clen);
@@ -130,7 +137,6 @@ struct Inputs { Bytes key, nonce, ad, ct; };
 // Incremental family: the packet is the SECOND packet of a session whose first
 // packet (generated length, see g_warmup) ran on the same state object under
 // nonce - 1, so that state left over from an earlier packet matters.
-static Bytes g_warmup;
 static Bytes nonce_minus_one(Bytes n) { for (int i = 15; i >= 0; --i) if (n[i]--) break; return n; }
 template <class A> static Bytes inc_session_encrypt_t(const Bytes &key, const Bytes &nonce, const Bytes &ad, const Bytes &pt, const std::vector<uint64_t> &chunks) {
     typename A::state_t *s = (typename A::state_t *)xalloc(sizeof(typename A::state_t));
@@ -258,6 +264,10 @@ static std::string check_c02(const KV &c) {
         int rc = fam_decrypt(fam, alg, orig, out, chk);
         if (rc != 0) return std::string(FAMNAME[fam]) + " alg " + num(alg) + ": decrypting an unmodified ciphertext returned " + std::to_string(rc);
         if (out != pt) return std::string(FAMNAME[fam]) + " alg " + num(alg) + ": round trip returned different plaintext";
+        if (fam == 0 || fam == 3) {
+            lib::DecResult di = lib::dec_generic_inplace(fam == 0 ? lib::AEAD_DEC[alg] : lib::SIV_DEC[alg], key, nonce, ad, ct);
+            if (di.rc != 0 || di.out != pt) return std::string(FAMNAME[fam]) + " alg " + num(alg) + ": decrypting an unmodified ciphertext IN PLACE (m == c) failed (rc " + std::to_string(di.rc) + ")";
+        }
     }
     size_t rate = fam == 4 ? 8 : lib::RATE[alg];
     auto flip = [](Bytes &b, uint64_t bit) { b[(bit / 8) % b.size()] ^= (uint8_t)(1u << (bit % 8)); };
@@ -337,6 +347,8 @@ static std::string check_c06(const KV &c) {
         if (got != want) return "SIV alg " + num(alg) + " encrypt differs from the documented two-pass construction: got " + hex(got).substr(0, 80) + " want " + hex(want).substr(0, 80);
         Bytes again = lib::enc_generic(lib::SIV_ENC[alg], key, nonce, ad, pt);
         if (again != got) return "SIV encrypt is not deterministic";
+        if (lib::enc_generic_inplace(lib::SIV_ENC[alg], key, nonce, ad, pt) != want) return "SIV alg " + num(alg) + " encrypt IN PLACE (c == m, " + num(pt.size()) + " bytes) differs from the documented construction";
+        { lib::DecResult di = lib::dec_generic_inplace(lib::SIV_DEC[alg], key, nonce, ad, want); if (di.rc != 0 || di.out != pt) return "SIV alg " + num(alg) + " decrypt IN PLACE of a valid " + num(want.size()) + "-byte ciphertext failed"; }
         // C++ class
         Bytes cpp;
         std::string e = cpp_encrypt(2, alg, key, nonce, ad, pt, cpp);
@@ -370,6 +382,8 @@ static std::string check_c06(const KV &c) {
         if (got != want) { k.free_(); return "ISAP alg " + num(alg) + " encrypt differs from the ISAP v2.0 reference: got " + hex(got).substr(0, 80) + " want " + hex(want).substr(0, 80); }
         lib::DecResult d = k.decrypt(nonce, ad, want);
         if (d.rc != 0 || d.out != pt || d.mlen != pt.size()) { k.free_(); return "ISAP decrypt of the reference ciphertext failed"; }
+        if (k.encrypt_inplace(nonce, ad, pt) != want) { k.free_(); return "ISAP alg " + num(alg) + " encrypt IN PLACE differs from the reference"; }
+        { lib::DecResult di = k.decrypt_inplace(nonce, ad, want); if (di.rc != 0 || di.out != pt) { k.free_(); return "ISAP alg " + num(alg) + " decrypt IN PLACE of a valid ciphertext failed"; } }
         if (k.raw() != snap) { k.free_(); return "ISAP pre-computed key object was modified by encrypt/decrypt"; }
         Bytes saved = k.save();
         if (saved != ref::isap_saved_key((ref::IsapAlg)alg, key)) { k.free_(); return "ISAP save_key bytes differ from the canonical ke||ka states"; }
